@@ -851,7 +851,7 @@ def discharge(ctx: interp.Ctx, contract: Contract, res: Result, numenv: NumEnv, 
                 res.samples.append(detail)
         else:
             entry = {"obligation": ob["name"], "kind": ob["kind"], "reason": how, "detail": detail}
-            tri = triage(ob, numenv, seed, detail=detail)
+            tri = triage(ob, numenv, seed, detail=detail, requires=[a for a in ctx.assumptions if a.get('origin') == 'requires'])
             entry.update(tri)
             if tri.get("holds_numerically"):
                 res.undecided.append(entry)
@@ -1039,12 +1039,13 @@ def _path_term(em, path):
     return ts[0] if len(ts) == 1 else f"(and {' '.join(ts)})"
 
 
-def triage(ob, numenv: NumEnv, seed, npoints=6, detail=None):
+def triage(ob, numenv: NumEnv, seed, npoints=6, detail=None, requires=()):
     """Evaluate a failed goal at the solver's counter-model (if any) and at random points on the
     variety (kernel outputs computed natively)."""
     worst = 0.0
     witness = None
     model = None
+    valid_points = 0
     if isinstance(detail, dict):
         model = detail.get("model") or (detail.get("smt") or {}).get("model") if isinstance(detail.get("smt"), dict) or detail.get("model") else None
     try:
@@ -1073,6 +1074,9 @@ def triage(ob, numenv: NumEnv, seed, npoints=6, detail=None):
             env = numenv.env_from(arrays, seed + k)
             if ob["path"] and not all(numenv.evalb(b, env) for b in ob["path"]):
                 continue
+            if not _requires_hold(requires, numenv, env):
+                continue  # the sampled point is outside the precondition: says nothing about the goal
+            valid_points += 1
             if ob["kind"] == "eq":
                 g = ob["goal"].p
                 val = g.evalf(env)
@@ -1090,10 +1094,23 @@ def triage(ob, numenv: NumEnv, seed, npoints=6, detail=None):
                 break
     except Exception as e:
         return {"triage_error": repr(e)[:300], "holds_numerically": False}
-    out = {"numeric_worst": worst, "holds_numerically": witness is None and worst < 1e-7}
+    out = {"numeric_worst": worst, "holds_numerically": witness is None and worst < 1e-7, "points_inside_precondition": valid_points}
     if witness:
         out["witness"] = witness
     return out
+
+
+def _requires_hold(requires, numenv, env, tol=1e-7):
+    for a in requires:
+        try:
+            if a["kind"] == "eq":
+                if abs(a["fact"].p.evalf(env)) > tol * (1.0 + sum(abs(float(c)) for c in list(a["fact"].p.t.values())[:50])):
+                    return False
+            elif not numenv.evalb(a["fact"], env):
+                return False
+        except Exception:
+            return False
+    return True
 
 
 def Poly_term(m, env):
@@ -1304,18 +1321,21 @@ def hoare_while(inv, name="loop", keep=None, ghost_init=None, ghost_step=None, e
     return while_loop
 
 
-def hoare_scan(inv, name="scan", ghost_init=None, ghost_step=None, x_hyp=None, step_post=None, on_step=None):
+def hoare_scan(inv, name="scan", ghost_init=None, ghost_step=None, x_hyp=None, step_post=None, on_step=None, keep=None, last_rel=None):
     """Replacement for ``scan(f, init, xs)`` (induction over the sequence): Inv(init, init, ghost0); for
     an arbitrary carry/ghost with Inv and an arbitrary element x with ``x_hyp(ghost, x)``: one symbolic
     execution of the *real* body, Inv of the new carry with the updated ghost and ``step_post`` (the
-    per-element postcondition, e.g. about the emitted output); returns an arbitrary carry with Inv and
-    the one symbolic output stacked len(xs) times (shapes only; contracts about outputs go in step_post).
+    per-element postcondition, e.g. about the emitted output); returns an arbitrary carry with Inv.
+    Outputs: the one symbolic output stacked (shapes only) except the last entry, which is an arbitrary
+    value related to the final carry by ``last_rel(carry, y)`` (asserted for every step).
     """
 
     def scan(step_func, init=None, xs=None, reverse=False, length=None, **kw):
         g0 = ghost_init(init, xs) if ghost_init else None
         assert_now(f"{name}.inv_init", inv(init, init, g0))
         c = havoc_like(init, f"{name}.carry")
+        if keep:
+            c = keep(init, c)
         g = havoc_like(g0, f"{name}.ghost") if g0 is not None else None
         x0 = jax.tree_util.tree_map(lambda a: a[0], xs)
         x = havoc_like(x0, f"{name}.x")
@@ -1325,15 +1345,26 @@ def hoare_scan(inv, name="scan", ghost_init=None, ghost_step=None, x_hyp=None, s
         if on_step:
             on_step(c, g, x)
         c1, y = step_func(c, x)
+        if keep:
+            assert_now(f"{name}.frame", _same_tree("unmodified", keep(init, c1), c1))
         g1 = ghost_step(g, x) if ghost_step else None
         assert_now(f"{name}.inv_preserved", inv(init, c1, g1))
         if step_post:
             assert_now(f"{name}.element", step_post(c, g, x, c1, y))
+        if last_rel:
+            assert_now(f"{name}.output_relation", last_rel(c1, y))
         c2 = havoc_like(init, f"{name}.final")
+        if keep:
+            c2 = keep(init, c2)
         g2 = havoc_like(g0, f"{name}.ghost_final") if g0 is not None else None
         assume_now(f"{name}.exit", inv(init, c2, g2))
         n = jax.tree_util.tree_leaves(xs)[0].shape[0]
-        ys = jax.tree_util.tree_map(lambda a: jnp.stack([a] * n), y)
+        if last_rel:
+            y_last = havoc_like(y, f"{name}.last_output")
+            assume_now(f"{name}.exit", last_rel(c2, y_last))
+            ys = jax.tree_util.tree_map(lambda a, b: jnp.stack([a] * (n - 1) + [b]), y, y_last)
+        else:
+            ys = jax.tree_util.tree_map(lambda a: jnp.stack([a] * n), y)
         return c2, ys
 
     return scan
